@@ -420,7 +420,7 @@ impl TypedStmt {
                 let mut collection = env.get(identifier).unwrap();
                 let mut accessed = vec![];
                 enum Assign {
-                    Array(Vec<usize>, usize, Vec<usize>),
+                    Array(Vec<usize>, (usize, usize), Vec<usize>),
                     Tuple(Vec<usize>, usize, usize),
                 }
                 for (access, _) in accessors {
@@ -481,7 +481,11 @@ impl TypedStmt {
                                 // an element of a valid size (even though it will not be used)
                                 collection = vec![0; elem_bits]
                             }
-                            accessed.push(Assign::Array(array_before_access, elem_bits, index));
+                            accessed.push(Assign::Array(
+                                array_before_access,
+                                (elem_bits, num_elems),
+                                index,
+                            ));
                         }
                         Accessor::TupleAccess { tuple_ty, index } => {
                             let tuple_before_access = collection.clone();
@@ -545,8 +549,7 @@ impl TypedStmt {
                 let mut value = value.compile(prg, env, circuit);
                 for assign in accessed.into_iter().rev() {
                     match assign {
-                        Assign::Array(mut array, elem_bits, mut index) => {
-                            let size = array.len() / elem_bits;
+                        Assign::Array(mut array, (elem_bits, size), mut index) => {
                             let index_bits = Type::Unsigned(UnsignedNumType::Usize)
                                 .size_in_bits_for_defs(prg, circuit.const_sizes());
                             extend_to_bits(
@@ -1728,7 +1731,8 @@ fn compile_bitonic_merge(
     }
     // Include the tag bit in the sorting of the merger
     circuit.push_bitonic_merger(join_ty_size + 1, true, &mut bitonic);
-    let mut joined = Vec::with_capacity(num_elems_a + num_elems_b - 1);
+    // (two empty arrays have no neighbouring elements at all)
+    let mut joined = Vec::with_capacity((num_elems_a + num_elems_b).saturating_sub(1));
     for slice in bitonic.windows(2).skip(num_empty_elems) {
         let mut binding: Vec<GateIndex> = if mode.is_join_func() {
             // Insert a dummy false element at the first position,
